@@ -6,6 +6,7 @@ import (
 	"go/token"
 	"go/types"
 	"math"
+	"strings"
 	"unicode/utf8"
 
 	"golang.org/x/tools/go/ssa"
@@ -1203,13 +1204,22 @@ func (it *stringIter) next() tuple {
 
 type iter interface{ next() tuple }
 
-func (ex *Exec) rangeIter(x value) iter {
+func (ex *Exec) rangeIter(fr *frame, x value) iter {
 	switch x := x.(type) {
 	case *omap:
 		if x == nil {
 			return &mapIter{m: &omap{}}
 		}
+		saved := ex.mapNondet
+		if saved && fr != nil {
+			for _, n := range ex.mapExclude {
+				if strings.Contains(fr.fn.String(), n) {
+					ex.mapNondet = false
+				}
+			}
+		}
 		ord := ex.mapOrder(x)
+		ex.mapNondet = saved
 		return &mapIter{m: x, ord: ord}
 	case string:
 		return &stringIter{s: x}
